@@ -72,6 +72,15 @@ def rule_fq2_sqrt(fx, rep):
                 if cv == M.F1(-1):
                     fr.storev(t['dest'], ('bool', (nm, a, 'minus_one', t['span'])))
                     return True
+        if c.get('trait') == 'ff::Field' and nm == 'is_zero' and len(t['args']) == 1 and (c.get('self_ty') or '').endswith('fq::Fq'):
+            # a zero test of one coefficient of the input element
+            pl = fr.ref_place_of(t['args'][0])
+            if isinstance(pl, dict):
+                root, proj = fr.root_of(pl)
+                proj = [e for e in proj if e[0] != 'deref']
+                if fr.store.get(root) == Lin.atom('a') and len(proj) == 1 and proj[0][0] == 'f' and proj[0][1] in (0, 1):
+                    fr.storev(t['dest'], ('bool', ('is_zero_comp', proj[0][1], t['span'])))
+                    return True
         if c.get('trait') == 'ff::Field' and nm == 'add_assign':
             bval = fr.deref_operand(t['args'][1])
             a = I._as_lin(fr.deref_operand(t['args'][0]))
@@ -93,7 +102,35 @@ def rule_fq2_sqrt(fx, rep):
     alpha = Lin({'a': (q - 1) // 2})
     x0 = Lin({'a': (q + 1) // 4})
     kinds = {}
-    for pth, ret, _ in res:
+    # coefficient-wise zero tests of the input (`c0.is_zero() && c1.is_zero()`, in any order and nesting) are folded
+    # into the zero test of the element: true when both coefficients were found zero, false as soon as one was found
+    # non-zero; a path that found only one coefficient zero and did not look at the other has not decided it
+    res2 = []
+    for pth, ret, o_ in res:
+        comps = {}
+        rest = []
+        first_where = None
+        for l in pth.labels:
+            nm_, tk_, x_ = lab_name(l)
+            if nm_ == 'is_zero_comp':
+                comps[x_[1]] = tk_
+                first_where = first_where or x_[2]
+            else:
+                rest.append(l)
+        if comps:
+            if any(not v_ for v_ in comps.values()):
+                whole = 0
+            elif set(comps) == {0, 1}:
+                whole = 1
+            else:
+                rep.fail('GUARD', 'Fq2::sqrt:zero-test-operand', 'a path decides on the zero test of coefficient c%d alone, not of the whole input element' % sorted(comps)[0], where, construct=path)
+                continue
+            np_ = exp.Path()
+            np_.labels = [(('is_zero', Lin.atom('a'), first_where), whole)] + rest
+            np_.events = list(pth.events)
+            pth = np_
+        res2.append((pth, ret, o_))
+    for pth, ret, _ in res2:
         labs = [lab_name(l) for l in pth.labels]
         desc = [(nm, tk) for nm, tk, _ in labs]
         if desc and desc[0][0] == 'is_zero' and labs[0][2][1] != Lin.atom('a'):
@@ -213,13 +250,32 @@ def rule_sgn0(fx, rep):
             ok = len(res) == 1 and isinstance(res[0][1], Agg) and res[0][1].kind and res[0][1].kind[1] == ('Negative' if bit else 'NonNegative')
             rep.check(ok, 'WIRE', 'Fq::sgn0:parity=%d' % bit, 'canonical integer with low bit %d -> %s' % (bit, 'Negative' if bit else 'NonNegative'),
                       'low bit %d gives %r (must read bit 0 of limb 0 of into_repr(), not the Montgomery limbs)' % (bit, [r[1] for r in res]), fx.fn(p)['span'], construct=p)
-    # Fq2: c0 unless c0 == 0, then c1
+    # Fq2: sign_0 OR (zero_0 AND sign_1), decided by value.  For each pair of parities (s0, s1) the method is interpreted
+    # with the coefficients as named values: `is_zero` / `sgn0` of a coefficient, and -- for implementations written on the
+    # canonical limbs -- `into_repr()`, `limb & 1`, `limb == 0`, `l0 | l1 | ...` are modelled; zero tests are predicates
+    # (whole coefficient, single limb, OR of limbs) on which the paths fork.  A path is judged in the worlds its literals
+    # allow: it must return Negative iff s0 = 1 or (c0 = 0 and s1 = 1); a path that has not established whether c0 is
+    # zero (e.g. looked at its low limb only) while the answer depends on it is a violation.
     p = fx.impl_method('signum::Signum0', FQ2, 'sgn0')
     b = fx.body(p) if p else None
     if b is None:
         rep.fail('WIRE', 'Fq2::sgn0:anchor', 'Signum0 for Fq2 not found')
     else:
         rep.fn(p)
+        import inline as INL
+        import tt
+        ok, why = True, ''
+        SG = 'signum::Sgn0Result'
+
+        class NLimb:
+            """limb k of the canonical representation of coefficient i; `ks`: an OR of several limbs of one coefficient"""
+            __slots__ = ('i', 'ks')
+
+            def __init__(self, i, ks):
+                self.i, self.ks = i, frozenset(ks)
+
+            def __repr__(self):
+                return 'limbs%s(c%d)' % (sorted(self.ks), self.i)
 
         def comp(fr, op):
             v = fr.deref_operand(op)
@@ -227,42 +283,112 @@ def rule_sgn0(fx, rep):
                 if isinstance(v, exp.Ref):
                     v = fr._project(fr.store.get(v.root, TOP), v.proj)
             return int(v[1]) if isinstance(v, str) and len(v) == 2 and v[0] == 'c' and v[1] in '01' else None
-
-        def tr(I, fr, t, c, pth):
-            if c.get('name') == 'is_zero' and c.get('trait') == 'ff::Field':
-                fr.storev(t['dest'], ('bool', ('is_zero_c', comp(fr, t['args'][0]))))
-                return True
-            if c.get('name') == 'sgn0':
-                fr.storev(t['dest'], ('sgn0_of', comp(fr, t['args'][0])))
-                return True
-            return False
-        import inline as INL
-        import tt
-        I = exp.Interp(fx, 'none', extra_transfer=tr, inline=lambda q: INL.is_private_helper(fx, q))
-        I.fork_inlined = True
-        ok, why = True, ''
         try:
-            res = I.run(p, [('byref', Agg(['c0', 'c1']))])
-            keys = [('is_zero_c', 0), ('is_zero_c', 1)]
-            for k_ in tt.predicates(res):
-                if k_ not in keys:
-                    ok, why = False, 'branches on %r (expected zero tests of the coefficients)' % (k_,)
-            for z0 in (False, True):
-                for z1 in (False, True):
-                    if not ok:
-                        break
-                    env = {keys[0]: z0, keys[1]: z1}
-                    cons = []
+            for s0 in (0, 1):
+                for s1 in (0, 1):
+                    par = (s0, s1)
+
+                    def tr(I, fr, t, c, pth):
+                        nm = c.get('name')
+                        if nm == 'is_zero' and c.get('trait') == 'ff::Field' and len(t['args']) == 1:
+                            i = comp(fr, t['args'][0])
+                            if i is not None:
+                                fr.storev(t['dest'], ('bool', ('zero', i, tuple(range(6)))))
+                                return True
+                        if nm == 'sgn0' and len(t['args']) == 1:
+                            i = comp(fr, t['args'][0])
+                            if i is not None:
+                                fr.storev(t['dest'], Agg([], (SG, 'Negative' if par[i] else 'NonNegative')))
+                                return True
+                        if nm == 'into_repr' and c.get('trait') == 'ff::PrimeField' and len(t['args']) == 1:
+                            i = comp(fr, t['args'][0])
+                            if i is not None:
+                                fr.storev(t['dest'], Agg([Agg([NLimb(i, [k]) for k in range(6)])]))
+                                return True
+                        if nm in ('is_odd', 'is_even') and c.get('trait') == 'ff::PrimeFieldRepr' and len(t['args']) == 1:
+                            v = fr.deref_operand(t['args'][0])
+                            l0 = v.items[0].items[0] if isinstance(v, Agg) and v.items and isinstance(v.items[0], Agg) and v.items[0].items else None
+                            if isinstance(l0, NLimb) and l0.ks == frozenset([0]):
+                                odd = par[l0.i]
+                                fr.storev(t['dest'], Int(odd if nm == 'is_odd' else 1 - odd, 1))
+                                return True
+                        if nm == 'is_zero' and c.get('trait') == 'ff::PrimeFieldRepr' and len(t['args']) == 1:
+                            v = fr.deref_operand(t['args'][0])
+                            ls = v.items[0].items if isinstance(v, Agg) and v.items and isinstance(v.items[0], Agg) else None
+                            if ls and all(isinstance(x, NLimb) and len(x.ks) == 1 for x in ls) and len(set(x.i for x in ls)) == 1:
+                                fr.storev(t['dest'], ('bool', ('zero', ls[0].i, tuple(sorted(k for x in ls for k in x.ks)))))
+                                return True
+                        import stdmodel
+                        return stdmodel.std_transfer(I, fr, t, c, pth)
+
+                    def bh(op, a, b):
+                        if b is None:
+                            return None
+                        if isinstance(b, NLimb) and not isinstance(a, NLimb):
+                            a, b = b, a
+                            if op not in ('BitAnd', 'BitOr', 'Eq', 'Ne'):
+                                return None
+                        if not isinstance(a, NLimb):
+                            return None
+                        if op == 'BitAnd' and isinstance(b, Int) and b.v == 1 and a.ks == frozenset([0]):
+                            return Int(par[a.i])
+                        if op == 'BitOr' and isinstance(b, NLimb) and b.i == a.i:
+                            return NLimb(a.i, a.ks | b.ks)
+                        if op in ('Eq', 'Ne') and isinstance(b, Int) and b.v == 0:
+                            pred = ('bool', ('zero', a.i, tuple(sorted(a.ks))))
+                            return pred if op == 'Eq' else ('bool', ('not', pred[1]))
+                        return None
+                    I = exp.Interp(fx, 'none', extra_transfer=tr, inline=lambda q: INL.is_private_helper(fx, q), max_paths=256)
+                    I.fork_inlined = True
+                    I.binop_hook = bh
+                    I.propagate_hooks = True
+                    res = I.run(p, [('byref', Agg(['c0', 'c1']))])
                     for pth, ret, _ in res:
-                        lits = tt.path_literals(pth)
-                        if all(env.get(k_) == t_ for k_, t_, _l in lits if k_ in env):
-                            cons.append(ret)
-                    want = [('sgn0_of', 0)] if not z0 else ([('sgn0_of', 1)] if not z1 else [('sgn0_of', 0), ('sgn0_of', 1)])
-                    if len(cons) != 1 or cons[0] not in want:
-                        ok, why = False, 'c0 %s zero, c1 %s zero: returns %r, expected sgn0 of %s' % ('is' if z0 else 'is not', 'is' if z1 else 'is not', cons, 'c0' if not z0 else 'c1')
+                        if isinstance(ret, tuple) and ret and ret[0] == 'diverges':
+                            ok, why = False, 'a path panics'
+                            continue
+                        # what the literals establish about "c_i is zero"
+                        est = {0: None, 1: None}
+                        zero_limbs = {0: set(), 1: set()}
+                        bad_lit = None
+                        infeasible = False
+                        for k_, t_, lab_ in tt.path_literals(pth):
+                            if not (isinstance(k_, tuple) and k_ and k_[0] == 'zero'):
+                                bad_lit = lab_
+                                break
+                            i_, ks_ = k_[1], set(k_[2])
+                            if t_:
+                                zero_limbs[i_] |= ks_
+                                if 0 in ks_ and par[i_]:
+                                    infeasible = True       # an odd value has a non-zero low limb
+                            else:
+                                if est[i_] is True or ks_ <= zero_limbs[i_]:
+                                    infeasible = True
+                                est[i_] = False
+                        if bad_lit is not None:
+                            ok, why = False, 'branches on %r (expected zero tests of the coefficients or of their limbs)' % (bad_lit,)
+                            continue
+                        if infeasible:
+                            continue
+                        for i_ in (0, 1):
+                            if est[i_] is None and zero_limbs[i_] == set(range(6)):
+                                est[i_] = True
+                        if par[0]:
+                            est[0] = False          # odd, hence non-zero
+                        wants = set()
+                        for z0 in ((True, False) if est[0] is None else (est[0],)):
+                            wants.add(bool(s0 or (z0 and s1)))
+                        got = ret.kind[1] if isinstance(ret, Agg) and ret.kind and ret.kind[0] == SG else None
+                        if got is None:
+                            ok, why = False, 'parities (%d, %d): returns %r' % (s0, s1, ret)
+                        elif len(wants) != 1:
+                            ok, why = False, ('parities (%d, %d): a path returns %s having established only that limbs %s of c0 are zero: whether c0 is zero is not decided, and the sign depends on it'
+                                              % (s0, s1, got, sorted(zero_limbs[0])))
+                        elif (got == 'Negative') != wants.pop():
+                            ok, why = False, 'parities (%d, %d), c0 %s: returns %s' % (s0, s1, 'zero' if est[0] else 'non-zero', got)
         except (exp.NotDerivable, exp.Budget) as e:
             ok, why = False, 'not derivable: %s' % e
-        rep.check(ok, 'WIRE', 'Fq2::sgn0', 'sgn0 of the first non-zero coefficient, real part first (truth table over the zero tests)', why, fx.fn(p)['span'], construct=p)
+        rep.check(ok, 'WIRE', 'Fq2::sgn0', 'sgn0(c0 + c1 u) = sign_0 OR (zero_0 AND sign_1), decided on every path for the four parity pairs, zero tests as predicates (coefficient / limb level)', why, fx.fn(p)['span'], construct=p)
     # negate_if: negate exactly under Negative
     p = 'signum::Signum0::negate_if'
     b = fx.body(p)
